@@ -230,6 +230,12 @@ def gen_cases(tier, seed, cdir):
         d = dict(c)
         d['opts'] = optsets[i % len(optsets)]
         cases.append(d)
+    rg = dict(options.default(), rename_globals=True)
+    for c in strgen.code_canary_cases(canary, 'vf_canary_mod'):
+        for o in (options.default(), options.all_on(), rg, dict(options.all_on(), rename_globals=True)):
+            d = dict(c)
+            d['opts'] = o
+            cases.append(d)
     for c in strgen.cookie_cases('vf_canary_mod'):
         c['opts'] = options.default()
         cases.append(c)
